@@ -33,6 +33,7 @@ type c08TOp struct {
 	M string `json:"m,omitempty"` // adv: "" both clocks | "caller" | "server"; outage: kind
 	V string `json:"v,omitempty"` // allow: entry point, "" AllowN | "ctx" AllowNCtx | "now" Allow | "nowctx" AllowCtx (n = 1, clocks coupled)
 	X int    `json:"x,omitempty"` // allow with V "ctx": 0 context.Background, k>0 the case's context k; cancel: context k
+	S bool   `json:"s,omitempty"` // recover: the server that answers again is a new process - its script cache is empty
 	// mallow: concurrent callers of ONE limiter released from a barrier, caller j
 	// requests Ns[j] tokens with now = caller clock + Ds[j] ms (same whole second)
 	Ns []int `json:"ns,omitempty"`
@@ -49,6 +50,7 @@ type c08TCtx struct {
 
 type c08TCase struct {
 	Store int       `json:"store,omitempty"` // how the shared *redis.Redis is built: c08StoreNode ...
+	Cfg   bool      `json:"cfg,omitempty"`   // built from the service configuration (redis.Config{...}.NewRedis()) instead of redis.New(addr, opts...)
 	Lims  []c08TLim `json:"lims"`
 	Ctxs  []c08TCtx `json:"ctxs,omitempty"`
 	Ops   []c08TOp  `json:"ops"`
@@ -121,6 +123,9 @@ func (b *c08Bucket) filled(sec, serverMs int64) (filled int64, expired bool) {
 	if d < 0 {
 		d = 0
 	}
+	if d > b.burst/b.rate+1 { // enough to fill it from empty (and no overflow below)
+		return b.burst, false
+	}
 	filled = st.tokens + d*b.rate
 	if filled > b.burst {
 		filled = b.burst
@@ -138,7 +143,7 @@ func (b *c08Bucket) allow(sec, serverMs, n int64) bool {
 		if d < 0 {
 			d = 0
 		}
-		if st.tokens+d*b.rate < b.burst {
+		if d <= b.burst/b.rate+1 && st.tokens+d*b.rate < b.burst {
 			b.forgot = true
 		}
 	}
@@ -193,21 +198,25 @@ func (b *c08Bucket) mixed(sec, serverMs int64, ns []int64, got []bool) bool {
 //
 // Same rate and burst, full at the start; level in millitokens so that rate
 // tokens/s = rate millitokens/ms is exact in integers (caller times are whole
-// milliseconds). level >= n must be granted. golang.org/x/time/rate rounds the
-// per-token interval DOWN to whole nanoseconds (its rate is >= ours by a
-// relative 2e-8 at most) and forgives a deficit worth less than 1 ns, so it may
-// grant a hair early: a request missing less than c08Tol may go either way
-// (the model then follows the observation); anything lower must be denied.
-// With integer levels the either-way zone is the single value n*1000-1.
+// milliseconds). level >= n must be granted. The fallback refills at exactly
+// `rate` (since 64da626: xrate.Limit(rate); before, the per-token interval was
+// rounded down to whole nanoseconds and the reference carried a slack term for
+// that). What remains is the clock resolution of golang.org/x/time/rate: it
+// computes waits in whole nanoseconds and forgives a deficit worth less than
+// 1 ns of refill, so a request missing less than tol() may go either way (the
+// model then follows the observation); anything lower must be denied.
 
 const c08Tol = 1 // millitoken
+
+// tol: what 1 ns of refill is worth, in millitokens, rounded up (1 for every
+// rate up to 10^6; above that 1 ns is worth more than a millitoken).
+func (r *c08Rescue) tol() int64 { return c08Tol + (r.rate-1)/1e6 }
 
 type c08Rescue struct {
 	rate, burst int64
 	init        bool
 	level       int64
 	last        int64
-	slack       int64 // millitokens the real limiter may be ahead since it was last full (see advance)
 }
 
 func (r *c08Rescue) advance(nowMs int64) {
@@ -218,15 +227,11 @@ func (r *c08Rescue) advance(nowMs int64) {
 	if nowMs > r.last {
 		d := nowMs - r.last
 		if d > r.burst*1000/r.rate+1 { // enough to fill it from empty (and no overflow below)
-			r.level, r.slack = r.burst*1000, 0
+			r.level = r.burst * 1000
 		} else {
-			add := r.rate * d
-			r.level += add
-			// golang.org/x/time/rate is given the interval 1s/rate rounded DOWN to whole
-			// nanoseconds: it refills faster than `rate` by a relative rate/1e9 at most
-			r.slack += add*r.rate/1e9 + 1
+			r.level += r.rate * d
 			if r.level >= r.burst*1000 {
-				r.level, r.slack = r.burst*1000, 0
+				r.level = r.burst * 1000
 			}
 		}
 		r.last = nowMs
@@ -239,7 +244,7 @@ func (r *c08Rescue) decide(nowMs, n int64) int {
 	switch need := n * 1000; {
 	case r.level >= need:
 		return 1
-	case r.level < need-c08Tol-r.slack:
+	case r.level < need-r.tol():
 		return -1
 	}
 	return 0
@@ -259,6 +264,9 @@ const (
 
 func c08TokenInterp(t *testing.T, c c08TCase, rule int) (v kit.Verdict) {
 	srv := c08GetServerFor(c.Store % c08StoreKinds)
+	if c08WarmupErr != "" {
+		return kit.Verdict{Fail: c08WarmupErr}
+	}
 	srv.reset()
 	c08Seq++
 	var fail string
@@ -270,6 +278,22 @@ func c08TokenInterp(t *testing.T, c c08TCase, rule int) (v kit.Verdict) {
 	classes["store-"+c08StoreNames[c.Store%c08StoreKinds]] = true
 	res := kit.Bubble(t, func() {
 		store := redis.New(srv.addr, c08StoreOpts(c.Store%c08StoreKinds)...)
+		if c.Cfg {
+			// the way a service gets its store: from the configuration
+			conf := redis.Config{Host: srv.addr, Type: redis.NodeType}
+			if k := c.Store % c08StoreKinds; k == c08StoreCluster || k == c08StoreClusterPass {
+				conf.Type = redis.ClusterType
+			}
+			if srv.auth {
+				conf.Pass = c08Pass
+			}
+			if err := conf.Validate(); err != nil {
+				fail = "redis.Config.Validate: " + err.Error()
+				return
+			}
+			store = conf.NewRedis()
+			classes["store-built-from-config"] = true
+		}
 		ctxs := make([]context.Context, len(c.Ctxs))
 		for i, x := range c.Ctxs {
 			var cancel context.CancelFunc
@@ -325,6 +349,9 @@ func c08TokenInterp(t *testing.T, c c08TCase, rule int) (v kit.Verdict) {
 			}
 			if l.Rate >= 1000 {
 				classes["rate>=1000"] = true
+			}
+			if l.Rate > 1e9 {
+				classes["rate>10^9"] = true
 			}
 			if l.Burst >= 65535 {
 				classes["burst>=65535"] = true
@@ -719,6 +746,12 @@ func c08TokenInterp(t *testing.T, c c08TCase, rule int) (v kit.Verdict) {
 					}
 					srv.setMode(c08Up)
 					srv.restartServer()
+					if o.S {
+						// what a restarted or failed-over Redis is: the data may be there
+						// (persistence, replica), the scripts loaded before are not
+						srv.loseScripts()
+						classes["recovered-server-lost-its-script-cache"] = true
+					}
 					down = false
 					blackhole = false
 					for l := range onRedis {
@@ -778,7 +811,18 @@ func c08TokenInterp(t *testing.T, c c08TCase, rule int) (v kit.Verdict) {
 				}
 			}
 		}
-		if outages > 0 {
+		if rule == c08RuleRestart {
+			// A real Close kills every pooled connection of the process-wide client
+			// (after rule crowd: the whole pool, 10 x GOMAXPROCS), and go-redis finds
+			// out one by one, four per command. Use the dead ones up (Ping never
+			// counts as a failure in the wrapper's breaker) so that the monitors of
+			// this case can finish below and the next case starts with a clean pool:
+			// a monitor still pinging at the end of the bubble would be reported as
+			// a leak although it is on its way back.
+			for i := 0; i < 4000 && !store.Ping(); i++ {
+			}
+		}
+		if outages > 0 || rule == c08RuleRestart {
 			time.Sleep(11 * time.Second)
 		}
 		if fail != "" || stalled || ctxRace {
@@ -797,7 +841,7 @@ func c08TokenInterp(t *testing.T, c c08TCase, rule int) (v kit.Verdict) {
 					var sum int64
 					for b := a; b < len(g); b++ {
 						sum += g[b].n
-						if t := g[b].sec - g[a].sec; sum > burst+rate*t {
+						if t := g[b].sec - g[a].sec; t <= (1<<62)/rate && sum > burst+rate*t {
 							fail = fmt.Sprintf("limiter %d (rate %d burst %d): %d events admitted between caller second %d and %d (t=%d), bound burst+rate*t = %d",
 								l, rate, burst, sum, g[a].sec, g[b].sec, t, burst+rate*t)
 							return
@@ -840,7 +884,7 @@ func c08GenLims(rt *rapid.T, max int, share bool) []c08TLim {
 	for i := range out {
 		r := rapid.IntRange(1, 20).Draw(rt, "rate")
 		if rapid.IntRange(0, 3).Draw(rt, "big-rate") == 0 {
-			r = rapid.SampledFrom([]int{100, 1000, 3000, 65536, 999999, 1000000}).Draw(rt, "rate-l")
+			r = rapid.SampledFrom([]int{100, 1000, 3000, 65536, 999999, 1000000, 1000000, 1000000000, 1000000001, 2000000000}).Draw(rt, "rate-l")
 		}
 		lo := (r + 1) / 2 // 2*burst >= rate: the script's TTL is positive
 		hi := 24
@@ -882,7 +926,10 @@ func c08PickN(rt *rapid.T, avail, burst int64) int {
 }
 
 func c08TokenGen(rt *rapid.T) c08TCase {
-	c := c08TCase{Lims: c08GenLims(rt, 3, true)}
+	// one request context that stays live for the whole case (AllowNCtx under a
+	// context with a Done channel takes go-redis' other path through withConn;
+	// several requests of one case share it, as the calls of one RPC handler do)
+	c := c08TCase{Lims: c08GenLims(rt, 3, true), Ctxs: []c08TCtx{{Kind: "cancel"}}}
 	const epoch = int64(946684800)
 	model := c08NewBuckets(c.Lims)
 	// reload: the limiters are used one after the other (an instance replaces its predecessor)
@@ -965,6 +1012,9 @@ func c08TokenGen(rt *rapid.T) c08TCase {
 				}
 				if o.V = rapid.SampledFrom(vs).Draw(rt, "entry"); o.V == "now" || o.V == "nowctx" {
 					o.N = 1
+				}
+				if o.V == "ctx" {
+					o.X = rapid.IntRange(0, 1).Draw(rt, "live-ctx")
 				}
 				b.allow(sec, serverMs, int64(o.N))
 			} else {
@@ -1050,7 +1100,7 @@ func c08OutageGen(rt *rapid.T) c08TCase {
 }
 
 func c08OutageGenModes(rt *rapid.T, modes []string, concurrent bool) c08TCase {
-	c := c08TCase{Lims: c08GenLims(rt, 3, false), Store: rapid.IntRange(0, c08StoreKinds-1).Draw(rt, "store")}
+	c := c08TCase{Lims: c08GenLims(rt, 3, false), Store: rapid.IntRange(0, c08StoreKinds-1).Draw(rt, "store"), Cfg: rapid.Bool().Draw(rt, "from-config")}
 	const epoch = int64(946684800)
 	nl := len(c.Lims)
 	model := c08NewBuckets(c.Lims)
@@ -1293,7 +1343,7 @@ func c08OutageGenModes(rt *rapid.T, modes []string, concurrent bool) c08TCase {
 		case "recover":
 			down = false
 			d := int64(rapid.SampledFrom([]int{1000, 1500, 3000, 11000}).Draw(rt, "settle"))
-			c.Ops = append(c.Ops, c08TOp{K: "recover", D: int(d)})
+			c.Ops = append(c.Ops, c08TOp{K: "recover", D: int(d), S: rapid.Bool().Draw(rt, "script-cache-lost")})
 			nowMs += d
 		}
 	}
@@ -1360,7 +1410,7 @@ func c08BlackholeGen(rt *rapid.T) c08TCase {
 		allow(true, 0)
 	}
 	settle := rapid.SampledFrom([]int{1000, 3000}).Draw(rt, "settle")
-	c.Ops = append(c.Ops, c08TOp{K: "recover", D: settle})
+	c.Ops = append(c.Ops, c08TOp{K: "recover", D: settle, S: rapid.Bool().Draw(rt, "script-cache-lost")})
 	callerMs += int64(settle)
 	serverMs += int64(settle)
 	for i := rapid.IntRange(1, 4).Draw(rt, "after"); i > 0; i-- {
